@@ -40,7 +40,10 @@ def body(v, macros, xml, include):
     s = ('<?xml version="1.0"?>' if xml else '') + '<r>V%d' % v
     for m in macros:
         s += '<i metal:define-macro="%s">M-%s-V%d</i>' % (m, m, v)
-    if include:
+    if include == 'macro':
+        # the whole template used as a macro (PageTemplate.include)
+        s += '<u metal:use-macro="load: lib.pt"/>'
+    elif include:
         s += '<u tal:define="t load: lib.pt" tal:replace="structure t()"/>'
     return s + '<input checked="${1}"/></r>'
 
@@ -83,7 +86,7 @@ def run_history(ctx, rng, root, cooks):
         os.makedirs(d, exist_ok=True)
     auto = rng.random() < .7
     via_loader = rng.random() < .5
-    include = rng.random() < .5
+    include = rng.choice([False, False, 'call', 'macro'])
     fm = FileModel()
     ver = [0]
     clock = [1000]
